@@ -692,6 +692,17 @@ class SortedWriter {
 }
 
 
+function compare_aggregation_keys(a, b) {
+    // Keys are JSON-serialized arrays of the GROUP BY values (or null without GROUP BY): compare the values, not their serialized text.
+    let [key_a, key_b] = [JSON.parse(a), JSON.parse(b)];
+    for (let i = 0; key_a !== null && key_b !== null && i < key_a.length; i++) {
+        if (key_a[i] !== key_b[i])
+            return key_a[i] < key_b[i] ? -1 : 1;
+    }
+    return 0;
+}
+
+
 class AggregateWriter {
     constructor(subwriter) {
         this.subwriter = subwriter;
@@ -701,7 +712,7 @@ class AggregateWriter {
 
     async finish() {
         var all_keys = Array.from(this.aggregation_keys);
-        all_keys.sort();
+        all_keys.sort(compare_aggregation_keys);
         for (var i = 0; i < all_keys.length; i++) {
             var key = all_keys[i];
             var out_fields = [];
